@@ -168,6 +168,49 @@ def hier_pair(rng):
     return stale, fresh, _hier_methods(labels, absent, depth), {'kind': 'IndexHierarchyGO:%d' % depth, 'labels': [P.enc(l) for l in labels], 'history': hist}
 
 
+def lazy_pair(rng):
+    '''a static IndexHierarchy that has never been read (its label table is built on first use) next to one whose table was materialised:
+    the same abstraction - what is cached is not state - on the static side'''
+    depth = rng.choice([2, 2, 3])
+    outers = rng.sample(['A', 'B', 'C', 'D'], rng.randint(1, 3))
+    inner = rng.sample([1, 2, 3], rng.randint(1, 3))
+    product = rng.random() < 0.5
+    labels = []
+    for o in outers:
+        for m in (inner if product else rng.sample([1, 2, 3], rng.randint(1, 2))):
+            if depth == 2:
+                labels.append((o, m))
+            else:
+                for u in (['x', 'y'] if product else rng.sample(['x', 'y'], rng.randint(1, 2))):
+                    labels.append((o, m, u))
+    if len(labels) < 2:
+        return hier_pair(rng)
+    routes = ['labels', 'tree'] + (['product'] if product else []) + (['items_shared'] if product and depth == 2 else []) + (['items'] if depth == 2 else [])
+
+    def build(route):
+        cls = sf.IndexHierarchy
+        if route == 'labels':
+            return cls.from_labels(labels)
+        if route == 'product':
+            return cls.from_product(outers, inner) if depth == 2 else cls.from_product(outers, inner, ['x', 'y'])
+        if depth == 2:
+            tree = {o: [l[1] for l in labels if l[0] == o] for o in outers}
+        else:
+            tree = {o: {m: [l[2] for l in labels if l[0] == o and l[1] == m] for m in dict.fromkeys(l[1] for l in labels if l[0] == o)} for o in outers}
+        if route == 'tree':
+            return cls.from_tree(tree)
+        if route == 'items_shared' and depth == 2:
+            shared = sf.Index(inner)
+            return cls.from_index_items((o, shared) for o in outers)
+        return cls.from_index_items((o, sf.Index(tree[o])) for o in outers)
+    route = rng.choice(routes)
+    unread = build(route)
+    read = build(rng.choice(routes))
+    rng.choice([lambda ix: ix.values, lambda ix: repr(ix), lambda ix: list(ix), lambda ix: ix.iloc[0]])(read)
+    absent = [('Z', 1) if depth == 2 else ('Z', 1, 'x')]
+    return unread, read, _hier_methods(labels, absent, depth), {'kind': 'IndexHierarchy(unread):%d' % depth, 'labels': [P.enc(l) for l in labels], 'history': [route]}
+
+
 # ---- grow-only Frames -----------------------------------------------------------------------------------------------------------
 def _frame_methods(cols, hier):
     last = cols[-1]
